@@ -38,5 +38,6 @@ if src:
 else:
     print("NO WITNESS FOUND")
 k = json.load(open("/verif/findings/known.json"))
+entry["line"] = (f"fixed: property={prop} {entry.get('commit','?')} {what}" if entry["status"] == "fixed" else f"KNOWN-FINDING: property={prop} {what} [{fid}]")
 k = [e for e in k if e["id"] != fid] + [entry]
 json.dump(k, open("/verif/findings/known.json", "w"), indent=1)
